@@ -10,20 +10,9 @@
 (* plus, where weights matter, w (scaled integer weight) and tr (sequence  *)
 (* of scaled transition weights, <<>> = none).                             *)
 (***************************************************************************)
-EXTENDS Naturals, Integers, Sequences, FiniteSets
-
-NoId == 0 - 1
-
-(* C03: the BigSMILES conjugation rule. *)
-Conjugate(x, y) == \/ (x = "$" /\ y = "$")
-                   \/ (x = "<" /\ y = ">")
-                   \/ (x = ">" /\ y = "<")
-
-Compatible(a, b) ==
-   /\ a.sym # "" /\ b.sym # ""
-   /\ a.id = b.id
-   /\ a.ord = b.ord
-   /\ Conjugate(a.sym, b.sym)
+EXTENDS Conjugation, Sequences, FiniteSets
+(* Conjugation: NoId, Conjugate, Compatible - the conjugation rule of C03, in a module of its own so that the *)
+(* proof system can be pointed at it (CompatProofs.tla proves its theorems for ALL ids and bond orders).       *)
 
 (* bond order denoted by the characters in front of a descriptor *)
 OrdOfPrefix(p) == CASE p = "=" -> 2
